@@ -28,6 +28,7 @@ class G:
         self.ms = ms
         self.ir_version = ir_version
         self.feeds_spec = []  # (name, onnx dtype, concrete shape, role)
+        self.value_info = []
 
     def fresh(self, stem="v"):
         self.n += 1
@@ -66,8 +67,14 @@ class G:
     def out(self, name, dtype, shape=None):
         self.outputs.append(h.make_tensor_value_info(name, dtype, shape))
 
+    def vi(self, name, dtype, shape):
+        """extra value_info (what the exporter records for values ONNX shape inference cannot derive, e.g. outputs
+        of contrib ops); the repo's gqa_test does the same."""
+        self.value_info.append(h.make_tensor_value_info(name, dtype, list(shape)))
+
     def model(self):
-        g = h.make_graph(self.nodes, "c19", self.inputs, self.outputs, initializer=self.inits)
+        g = h.make_graph(self.nodes, "c19", self.inputs, self.outputs, initializer=self.inits,
+                         value_info=self.value_info)
         imports = [h.make_opsetid("", self.opset)]
         if self.ms:
             imports.append(h.make_opsetid("com.microsoft", 1))
@@ -99,7 +106,9 @@ def valuation(spec, k):
     feeds = {}
     for idx, (name, dt, shape, role) in enumerate(spec):
         npdt = NP[dt]
-        if role == "data":
+        if isinstance(role, (tuple, list)) and role[0] == "fixed":
+            feeds[name] = np.asarray(role[1], dtype=npdt).reshape(shape)
+        elif role == "data":
             feeds[name] = _data(k, idx, shape, npdt)
         elif role == "scale":   # gamma-like: around 1, both signs in valuation 2
             feeds[name] = (1.0 + _data(k, idx, shape, np.float64) * (0.05 if k < 2 else 0.2)).astype(npdt)
@@ -107,7 +116,7 @@ def valuation(spec, k):
             feeds[name] = (_data(0, idx + k, shape, np.float64) * 0.2).astype(npdt)
         elif role == "pos":     # position ids: [.., S] -> 0..S-1 (+k offset on valuation 1 is not allowed
             s = shape[-1] if len(shape) else 1     # by GQA semantics without past; keep plain arange)
-            feeds[name] = np.broadcast_to(np.arange(s, dtype=np.int64), shape).astype(npdt).copy()
+            feeds[name] = np.broadcast_to(np.arange(s, dtype=np.int64) + k, shape).astype(npdt).copy()
         elif role == "ones":
             feeds[name] = np.ones(shape, dtype=npdt)
         elif role == "mask":    # additive float mask: 0 / large negative, never a fully masked row
